@@ -225,7 +225,7 @@ func oracleC09(c *props.Case) (verdict props.Verdict) {
 		return props.Verdict{Status: props.Discard, Reason: "transport-retried", Classes: classes}
 	}
 	// Text shown during login is banner text; only transport faults count there.
-	if (fl.Class == "login" || fl.Text == "enable" || fl.Text == "PS1=router#") && (kind == "error" || kind == "garbage" || kind == "badecho") {
+	if (fl.Class == "login" || fl.Text == "enable" || fl.Text == "PS1=router#") && (kind == "error" || kind == "garbage" || kind == "badecho" || kind == "warnerror") {
 		return props.Verdict{Status: props.Discard, Reason: "fault-on-freeform-step", Classes: classes}
 	}
 	if !strictStep(sc.Family, fl) {
